@@ -199,6 +199,10 @@ def compare(case, r, mline):
                 ev['assert'] += 1
             elif x == y:
                 ev['agree'] += 1
+            elif sorted(split_values(x)) == sorted(split_values(y)):
+                # same bag, other order: toy_eval_model binds factored paths (x.p) before it evaluates
+                # the rest of a tuple; without ORDER BY the order of a result is not defined
+                ev['agree_up_to_order'] = ev.get('agree_up_to_order', 0) + 1
             else:
                 ev['diff'] += 1
                 first_diff = first_diff or (x, y)
@@ -378,7 +382,7 @@ def run(tier):
 
     # ---- compare + classify
     dis_by_kind = {}
-    evstat = {'agree': 0, 'diff': 0, 'unsupported': 0, 'assert': 0}
+    evstat = {'agree': 0, 'agree_up_to_order': 0, 'diff': 0, 'unsupported': 0, 'assert': 0}
     eval_diffs = []
     mon_hits = []          # (index, tags)
     tagdist = {}
@@ -394,7 +398,7 @@ def run(tier):
         if model is not None:
             d, ev, tags, fd = compare(c, r, model[i])
             for kk in evstat:
-                evstat[kk] += ev[kk]
+                evstat[kk] += ev.get(kk, 0)
             if d:
                 # the malformed stream may be rejected for type reasons the untyped model does not see
                 if not (i >= len(corp_core) + len(core) and r.get('err') and str(r['err']).startswith('E:other')):
@@ -676,6 +680,25 @@ def run(tier):
     ]
     rep.notes.append(f'wall before finish {time.time() - t0:.1f}s; phases: ' + ', '.join(f'{k}={v:.0f}s' for k, v in PH.items()))
     return rep.finish()
+
+
+def split_values(s):
+    """top-level values of a printed result"""
+    out, depth, cur = [], 0, ''
+    for ch in s:
+        if ch in '([':
+            depth += 1
+        elif ch in ')]':
+            depth -= 1
+        if ch == ' ' and depth == 0:
+            if cur:
+                out.append(cur)
+            cur = ''
+        else:
+            cur += ch
+    if cur:
+        out.append(cur)
+    return out
 
 
 def count_values(s):
